@@ -10,6 +10,7 @@
 -/
 import OrxPar.Lemmas.Terminals
 import OrxPar.Lemmas.Run
+import OrxPar.Lemmas.PartialSrc
 namespace OrxPar
 
 /-- **C02 (find).** -/
@@ -66,6 +67,15 @@ theorem C02_find_idx (P : Par) (ex : Exec) (q : Val → Bool) (hs : P.hasIdx = t
 theorem C02_idx_value (s : Src) (ops : List Op) (q : Val → Bool) :
     (specIdx (Par.build s ops).1 q).map (·.2) = (seqVals s.items ops).find? q := by
   rw [specIdx_value, build_stream_vals]
+
+/-- **known finding G (partially consumed concurrent iterator, sequential mode).** the parallel
+    kernels report the index the iterator hands out — for an iterator that has already yielded
+    `b` elements, `b +` the position among the remaining ones, i.e. the position in the original
+    source — while the sequential path enumerates the remainder from 0: the two differ by `b` -/
+theorem C02_with_index_partial_source_finding (m : Val → Val) (f : Val → Bool) (xs : List Val) (b : Nat) :
+    (((xs.map m).zipIdx b).findSome? fun p => if f p.1 then some (p.2, p.1) else none)
+      = (K.seqMapFilFind m f xs).map fun r => (b + r.1, r.2) :=
+  with_index_seq_vs_par m f xs b
 
 /-- **C02 (every interleaving).** every finished run of the transition system with early exit
     over a finite source is an accepted find-execution -/
